@@ -110,6 +110,36 @@ def main(args):
             print("selftest: %-55s -> %s" % ("  ... is not excused by the open finding keyed on another site", "OK" if not kf else "EXCUSED (wrong)"))
             if kf:
                 fails.append("known-finding triage excused a violation without its site")
+    # trace acceptance by the code-shaped model: the recorded executions (with state-function brackets) are behaviours of HtpParser.tla;
+    # with ONE field of one record changed (the state a state function leaves, a callback's transaction, the bytes left) they are not
+    import drift
+    dscns = []
+    for name in ("get3", "post_head", "connect_404"):
+        ex = lib[name]
+        dscns.append(streams.scn_from_exchange("selfd/" + name, ex, [(">", ex["q"]), ("<", ex["s"])], {"steps": 1}))
+    dfiles = streams.run_rec(ctx, exe["rec"], dscns, "selfd", nshards=1)
+    acc, tot, dr = drift.accept(ctx, dfiles, nshards=1)
+    print("selftest: model acceptance of %d recorded execution(s)                 -> %s" % (tot, "ACCEPTED" if acc == tot == len(dscns) else "REJECTED %s" % dr[:1]))
+    if not (acc == tot == len(dscns)):
+        fails.append("HtpParser.tla does not accept the baseline executions: %s" % dr[:1])
+    drecs = [json.loads(l) for l in open(dfiles[0])]
+    def corrupt_se(recs):
+        i = [k for k, r in enumerate(recs) if r.get("e") == "SE" and r.get("s2") == "REQ_HEADERS"][0]
+        out = list(recs); out[i] = dict(out[i], s2="REQ_BODY_DETERMINE"); return out
+    def corrupt_cbtx(recs):
+        i = [k for k, r in enumerate(recs) if r.get("e") == "Cb" and r.get("n") == "response_headers"][0]
+        out = list(recs); out[i] = dict(out[i], tx=out[i]["tx"] + 1); return out
+    def corrupt_left(recs):
+        i = [k for k, r in enumerate(recs) if r.get("e") == "SE" and r.get("left", 0) > 3][0]
+        out = list(recs); out[i] = dict(out[i], left=out[i]["left"] - 1); return out
+    for what, fn in (("a state function leaves another state", corrupt_se), ("a callback for another transaction", corrupt_cbtx), ("one byte fewer left after a step", corrupt_left)):
+        f = ctx.path("dcorrupt.ndjson")
+        open(f, "w").write("".join(json.dumps(r, separators=(",", ":")) + "\n" for r in fn(drecs)))
+        a2, t2, d2 = drift.accept(ctx, [f], nshards=1)
+        ok = len(d2) >= 1
+        print("selftest: model acceptance, %-42s -> %s" % (what, "REJECTED (drift at record %s)" % d2[0]["line_in_execution"] if ok else "ACCEPTED (wrong)"))
+        if not ok:
+            fails.append("corrupted trace accepted by HtpParser.tla: " + what)
     # pattern F
     rows = subprocess.run([exe["fn_urlenc"], "exh", "3", "0", "64"], capture_output=True, text=True, env=vlib.san_env()).stdout.splitlines()
     if len(rows) < 5:
